@@ -202,10 +202,12 @@ fn intruder_bytes(kind: usize) -> Vec<u8> {
         2 => rc::error(0, "intruder"),
         3 => rc::oack(&[("blksize", "8")]),
         4 => rc::data(1, &vec![0x49u8; 600]),  // a full-size-plus DATA block (larger than the default request buffer)
-        _ => rc::data(7, &vec![0x49u8; 2000]),
+        5 => rc::data(7, &vec![0x49u8; 2000]),
+        6 => vec![0, 4, 1],                     // truncated ACK
+        _ => vec![0, 3],                        // truncated DATA
     }
 }
-const INTRUDER_KINDS: usize = 6;
+const INTRUDER_KINDS: usize = 8;
 
 struct RunResult {
     viol: Vec<(String, String)>,
@@ -246,9 +248,9 @@ fn run_one(srv: &Srv, cfg: &SrvCfg, scripts: &[Script], same_file: bool, order: 
         let _ = ic.sock.send_to(&intruder_bytes(it.kind), target);
         if target == srv.addr {
             *sent_to_listen = true;
-            // the listen loop is sequential: its ERROR reply must arrive
+            // the listen loop is sequential: its ERROR reply must arrive (malformed datagrams need not be answered)
             let t0 = Instant::now();
-            while t0.elapsed() < BACKSTOP {
+            while it.kind < 6 && t0.elapsed() < BACKSTOP {
                 if let Some((b, _)) = ic.recv_wait(Duration::from_millis(20)) {
                     *intruder_reply = Some(b);
                     break;
@@ -399,7 +401,7 @@ fn run_one(srv: &Srv, cfg: &SrvCfg, scripts: &[Script], same_file: bool, order: 
         }
     }
     if let Some(it) = intr {
-        if intruder_sent_to_listen {
+        if intruder_sent_to_listen && it.kind < 6 {
             match intruder_reply.as_ref().map(|b| rc::decode(b)) {
                 Some(Ok(RPacket::Error { .. })) => {}
                 other => {
